@@ -50,6 +50,12 @@ CONSTANTS
     RespDefects,  \* defect flags available to authorization responses
     TokDefects,   \* defect flags available to authorization_code token requests
     AuthDefects,  \* defect flags available to authorization requests (the scope is fixed there)
+    Shapes,       \* envelopes: [nvp |-> number of presentations (all of one holder), main |-> position of the presentation
+                  \* with the credentials the submission maps, pos |-> position of the presentation that carries the
+                  \* per-presentation defect flags of the request (wrong audience, dates, nonce, signature, credential)]
+    WrongAuds,    \* audiences of a request WITH the flag "aud": not this authorization server
+    OkAuds,       \* audiences of a request WITHOUT the flag "aud": this server ("exact", "array_with") or a URL derived from its
+                  \* identifier (NearAuds: the statement does not say whether those address this server; the code refuses them)
     MaxDefects,   \* flags per request (2 = all pairs)
     Defs,         \* definition variants: "plain", or the name of a response member used as constraint-field id
     DPoPKeys,     \* "none" or the name of the key that signed the DPoP proof
@@ -115,6 +121,18 @@ Remembered(n) == burnt[n] # NoTime /\ now < burnt[n] + NonceTTL
 \* VerifyVP's time check of a presentation created at c (valid for VPWindow)
 TimeValid(c, fmt) == IF fmt = "ldp" THEN c <= now + Skew /\ now < c + VPWindow + Skew
                                     ELSE c <= now /\ now < c + VPWindow
+\* Audience of the presentation at position pos (JWT aud / JSON-LD proof domain).  This server's identifier is
+\* <node URL>/oauth2/<subject>.
+\*   exact          the identifier                       array_with     several audiences, the identifier among them
+\*   missing        none                                 unrelated      another host
+\*   other_tenant   another subject of this node         extends        a subject whose id EXTENDS this one's (as -> as2)
+\*   prefix         a subject whose id is a PREFIX of this one's       array_without  several audiences, all foreign
+\*   slash / path / query / hostcase   the identifier with a trailing slash / one more path segment / a query / HOST in capitals
+AllWrongAuds == {"missing", "unrelated", "other_tenant", "extends", "prefix", "array_without"}
+NearAuds == {"slash", "path", "query", "hostcase"}
+AudsFor(d) == IF "aud" \in d THEN WrongAuds ELSE OkAuds
+\* validatePresentationAudience: string equality with one of the audiences
+AudAccepted(d, audv) == "aud" \notin d /\ audv \notin NearAuds
 \* requested scope strings no presentation definition is configured for
 ScopeDefects == {"scope", "multiscope"}
 \* defects found by Verifier.VerifyVP
@@ -132,10 +150,10 @@ NewToken(flow, client, cnf, def, n, clean) ==
 (* DPoP; VerifyVP; store.                                                  *)
 (***************************************************************************)
 \* the first check a defect set fails statically (nonce memory and time apart)
-Class(d) ==
+Class(d, audv) ==
     IF d \cap {"nodates", "validity"} # {} THEN "validity"
     ELSE IF "signer" \in d THEN "signer"
-    ELSE IF "aud" \in d THEN "audience"
+    ELSE IF ~AudAccepted(d, audv) THEN "audience"
     ELSE IF "mixed" \in d THEN "signer"                  \* the second presentation of the envelope
     \* "scope": a value no definition is configured for.  "multiscope": a space-delimited LIST of scope values (RFC 6749
     \* 3.3) - two configured values of which the submission fulfils one, or a configured and an unknown one.  The policy
@@ -147,13 +165,19 @@ Class(d) ==
     ELSE IF "baddpop" \in d THEN "dpop"
     ELSE IF d \cap VerifyDefects # {} THEN "verify"
     ELSE "ok"
-S2SStage(cls, n, c, fmt) ==
-    IF cls \in {"validity", "signer", "audience", "scope", "submission", "nonce"} THEN cls
+\* early: the presentation without nonce comes AFTER the one that carries nonce n, whose nonce the loop has burnt by then
+S2SStage(cls, n, c, fmt, early) ==
+    IF cls \in {"validity", "signer", "audience", "scope", "submission"} THEN cls
+    ELSE IF cls = "nonce" /\ ~early THEN "nonce"
     ELSE IF Remembered(n) THEN "replay"
+    ELSE IF cls = "nonce" THEN "nonce"
     ELSE IF cls = "dpop" THEN "dpop"
     ELSE IF cls = "verify" \/ ~TimeValid(c, fmt) THEN "verify"
     ELSE "issue"
-Burns(stage) == stage \in {"replay", "dpop", "verify", "issue"}
+Burns(stage, early) == stage \in {"replay", "dpop", "verify", "issue"} \/ (stage = "nonce" /\ early)
+Early(d, sh) == "nononce" \in d /\ sh.main < sh.pos
+\* does the request carry nonce n at all?
+HasNonce(d, sh) == ~("nononce" \in d /\ sh.main = sh.pos)
 ErrCode(stage) == CASE stage = "scope" -> "invalid_scope"
                     [] stage = "dpop" -> "invalid_dpop_proof"
                     [] stage = "issue" -> "issued"
@@ -161,35 +185,37 @@ ErrCode(stage) == CASE stage = "scope" -> "invalid_scope"
 
 \* the effect of one vp_token-bearer request carrying presentation p; clean = it has no defect flag
 S2SEffect(p, stage, clean) ==
-    /\ burnt' = IF Burns(stage) THEN [burnt EXCEPT ![p.n] = now] ELSE burnt
+    /\ burnt' = IF Burns(stage, p.early) THEN [burnt EXCEPT ![p.n] = now] ELSE burnt
     /\ tokens' = IF stage = "issue"
                  THEN Append(tokens, NewToken("s2s", p.client, p.dpop, p.def, p.n, clean))
                  ELSE tokens
 
 \* S2SDo: the request is answered as in `stage` (S2SToken: the stage the pipeline computes; the trace specification also
 \* uses it to reconstruct what a real node did).  clean: no defect flag and the pipeline would issue.
-S2SDo(d, n, fmt, fut, def, dpop, client, stage) ==
+S2SDo(d, n, fmt, fut, def, dpop, client, sh, audv, stage) ==
     /\ "s2s" \in Flows /\ steps < MaxSteps
-    /\ LET p == [cls |-> Class(d), n |-> n, c |-> now + fut, fmt |-> fmt, def |-> def, dpop |-> dpop, client |-> client, acc |-> FALSE]
-       IN /\ S2SEffect(p, stage, d = {} /\ S2SStage(p.cls, n, p.c, fmt) = "issue")
+    /\ LET p == [cls |-> Class(d, audv), n |-> n, c |-> now + fut, fmt |-> fmt, def |-> def, dpop |-> dpop, client |-> client,
+                 early |-> Early(d, sh), acc |-> FALSE]
+       IN /\ S2SEffect(p, stage, d = {} /\ S2SStage(p.cls, n, p.c, fmt, p.early) = "issue")
           /\ lastp' = [p EXCEPT !.acc = (stage = "issue")] /\ npres' = npres + 1
           /\ Log([a |-> "S2SToken", p |-> PresId(npres + 1), d |-> d, n |-> n, fmt |-> fmt, fut |-> fut, def |-> def,
-                  dpop |-> dpop, client |-> client, res |-> ErrCode(stage), stage |-> stage,
+                  dpop |-> dpop, client |-> client, nvp |-> sh.nvp, main |-> sh.main, pos |-> sh.pos, audv |-> audv,
+                  res |-> ErrCode(stage), stage |-> stage,
                   tok |-> IF stage = "issue" THEN TokId(Len(tokens) + 1) ELSE None])
     /\ UNCHANGED <<now, age, sess, intro>>
-S2SToken(d, n, fmt, fut, def, dpop, client) ==
-    S2SDo(d, n, fmt, fut, def, dpop, client, S2SStage(Class(d), n, now + fut, fmt))
+S2SToken(d, n, fmt, fut, def, dpop, client, sh, audv) ==
+    S2SDo(d, n, fmt, fut, def, dpop, client, sh, audv, S2SStage(Class(d, audv), n, now + fut, fmt, Early(d, sh)))
 
 \* the identical bytes once more (an eavesdropper, or the client itself): a defect once the presentation was accepted
 S2SReplayDo(stage) ==
     /\ "s2s" \in Flows /\ steps < MaxSteps /\ lastp.cls # None
     /\ LET p == lastp
-       IN /\ S2SEffect(p, stage, p.cls = "ok" /\ ~p.acc /\ S2SStage(p.cls, p.n, p.c, p.fmt) = "issue")
+       IN /\ S2SEffect(p, stage, p.cls = "ok" /\ ~p.acc /\ S2SStage(p.cls, p.n, p.c, p.fmt, p.early) = "issue")
           /\ lastp' = [p EXCEPT !.acc = @ \/ stage = "issue"]
           /\ Log([a |-> "S2SReplay", p |-> PresId(npres), n |-> p.n, res |-> ErrCode(stage), stage |-> stage,
                   tok |-> IF stage = "issue" THEN TokId(Len(tokens) + 1) ELSE None])
     /\ UNCHANGED <<now, age, npres, sess, intro>>
-S2SReplay == lastp.cls # None /\ S2SReplayDo(S2SStage(lastp.cls, lastp.n, lastp.c, lastp.fmt))
+S2SReplay == lastp.cls # None /\ S2SReplayDo(S2SStage(lastp.cls, lastp.n, lastp.c, lastp.fmt, lastp.early))
 
 (***************************************************************************)
 (* authorization_code with OpenID4VP                                       *)
@@ -206,28 +232,31 @@ AuthorizeDo(client, def, d, ok) ==
 Authorize(client, def, d) == AuthorizeDo(client, def, d, d \cap ScopeDefects = {})
 
 \* order as implemented: state -> tenant -> nonce (burnt) -> signer -> audience -> VerifyVP -> fulfil -> code
-RespStage(d, st) ==
+\* validatePresentationNonce: all presentations must carry one and the same nonce; otherwise every nonce that was found
+\* is deleted - with several presentations that includes the session's own nonce ("noncemix")
+RespStage(d, st, audv, nvp) ==
     IF "state" \in d THEN "state"
     ELSE IF "tenant" \in d THEN "state"
+    ELSE IF d \cap {"nononce", "badnonce"} # {} /\ nvp > 1 /\ st = "open" THEN "noncemix"
     ELSE IF "nononce" \in d THEN "nonce"                \* nothing to burn
     ELSE IF "badnonce" \in d THEN "nonce"               \* a nonce of nobody: nothing burnt
     ELSE IF st # "open" THEN "nonce"                    \* the session's nonce is gone
     ELSE IF d \cap {"signer", "mixed"} # {} THEN "signer"
-    ELSE IF "aud" \in d THEN "audience"
+    ELSE IF ~AudAccepted(d, audv) THEN "audience"
     ELSE IF d \cap VerifyDefects # {} THEN "verify"
     ELSE IF d \cap {"foreigndef", "unfulfilled", "forgedmap"} # {} THEN "submission"
     ELSE "code"
-RespBurns(stage) == stage \in {"signer", "audience", "verify", "submission", "code"}
+RespBurns(stage) == stage \in {"noncemix", "signer", "audience", "verify", "submission", "code"}
 
-AuthzDo(i, d, fmt, stage) ==
+AuthzDo(i, d, fmt, sh, audv, stage) ==
     /\ "code" \in Flows /\ steps < MaxSteps /\ i \in 1..Len(sess)
     /\ sess' = [sess EXCEPT ![i].st = IF stage = "code" THEN "coded"
                                       ELSE IF RespBurns(stage) /\ @ = "open" THEN "dead" ELSE @,
-                            ![i].clean = IF stage = "code" THEN @ /\ d = {} /\ RespStage(d, sess[i].st) = "code" ELSE @]
-    /\ Log([a |-> "AuthzResponse", s |-> SessId(i), d |-> d, fmt |-> fmt,
+                            ![i].clean = IF stage = "code" THEN @ /\ d = {} /\ RespStage(d, sess[i].st, audv, sh.nvp) = "code" ELSE @]
+    /\ Log([a |-> "AuthzResponse", s |-> SessId(i), d |-> d, fmt |-> fmt, nvp |-> sh.nvp, main |-> sh.main, pos |-> sh.pos, audv |-> audv,
             res |-> IF stage = "code" THEN "code" ELSE "invalid_request", stage |-> stage])
     /\ UNCHANGED <<now, age, burnt, lastp, npres, tokens, intro>>
-AuthzResponse(i, d, fmt) == i \in 1..Len(sess) /\ AuthzDo(i, d, fmt, RespStage(d, sess[i].st))
+AuthzResponse(i, d, fmt, sh, audv) == i \in 1..Len(sess) /\ AuthzDo(i, d, fmt, sh, audv, RespStage(d, sess[i].st, audv, sh.nvp))
 
 \* order as implemented: code present -> (code burnt from here on) -> lookup -> client_id -> PKCE -> DPoP -> store
 TokStage(d, st) ==
@@ -295,11 +324,12 @@ Age ==  /\ age < MaxAge /\ steps < MaxSteps /\ age' = age + 1 /\ Log([a |-> "Age
         /\ UNCHANGED <<now, burnt, lastp, npres, tokens, sess, intro>>
 
 Next ==
-    \/ \E d \in DefectSets(S2SDefects), n \in Nonces, fmt \in Formats, fut \in Futures, def \in Defs, k \in DPoPKeys, c \in Clients :
-          S2SToken(d, n, fmt, fut, def, k, c)
+    \/ \E d \in DefectSets(S2SDefects), n \in Nonces, fmt \in Formats, fut \in Futures, def \in Defs, k \in DPoPKeys, c \in Clients, sh \in Shapes :
+          \E audv \in AudsFor(d) : S2SToken(d, n, fmt, fut, def, k, c, sh, audv)
     \/ S2SReplay
     \/ \E c \in Clients, def \in Defs, d \in DefectSets(AuthDefects) : Authorize(c, def, d)
-    \/ \E i \in 1..Len(sess), d \in DefectSets(RespDefects), fmt \in Formats : AuthzResponse(i, d, fmt)
+    \/ \E i \in 1..Len(sess), d \in DefectSets(RespDefects), fmt \in Formats, sh \in Shapes :
+          \E audv \in AudsFor(d) : AuthzResponse(i, d, fmt, sh, audv)
     \/ \E i \in 1..Len(sess), d \in DefectSets(TokDefects), k \in DPoPKeys : CodeToken(i, d, k)
     \/ \E t \in 0..Len(tokens), ext \in Exts : Introspect(t, ext)
     \/ Tick \/ Age
@@ -327,6 +357,9 @@ CodeSingleUse ==
 \* also when DPoP or signature verification fails afterwards (`last` is the action that led to this state)
 NonceBurntEvenOnLaterFailure ==
     (last.a \in {"S2SToken", "S2SReplay"} /\ last.stage \in {"replay", "dpop", "verify", "issue"}) => burnt[last.n] = now
+\* every presentation of the envelope is checked: whatever the number of presentations, whichever of them carries the
+\* defect and whatever the wrong audience looks like, the answer is the one of the single-presentation request
+\* (holds by construction of the pipeline above; the real code is bound to it by replay and trace validation)
 
 \* introspection is a function of the issuance record and the token clock only.
 \* Sound: "active" only for a token this node issued and that has not expired, with the values established at issuance
